@@ -245,6 +245,9 @@ func (c16) Exec(d any) mon.Result {
 	}
 	res.AddFeat("stuffed_ff_in_scans", int64(inf.StuffedFF))
 	res.AddFeat("stream_bytes", int64(len(stream)))
+	if h := inf.CompleteDHT(); h != nil {
+		return fail("dht-all-ones-codeword", fmt.Sprintf("Huffman table Tc=%d Th=%d assigns every code word including the all-1-bits one that T.81 reserves (BITS %v)", h.Class, h.ID, h.Bits[1:]))
+	}
 	if c.Enc == "extended" && c.P == 8 && inf.SOF == 0xC0 {
 		// an 8-bit Extended stream may legitimately be coded with the baseline process
 		wantSOF = 0xC0
